@@ -317,3 +317,8 @@ CHECKS["C15"] = {
                     "snapshotName returns pairwise distinct names (snap-1, snap-2, ...) instead of term-index-milliseconds"],
     "harnesses": [H_FSCRASH, H_FSCORRUPT],
 }
+
+H_SENDSNAP = {"fn": "vh_send_snapshot", "what": "sendLatestSnapshot on an arbitrary leader with 0-2 snapshots in its store and an arbitrary follower response / RPC error / store fault",
+              "bounds": "N=2, <=2 snapshots", "covers": ["snap.success", "snap.rejected", "snap.rpc-error", "snap.stale-term", "snap.not-sent"]}
+for p in ["C12", "C05", "C01", "C11", "C09"]:
+    CHECKS[p]["harnesses"].append(H_SENDSNAP)
